@@ -6,6 +6,7 @@ package mesim
 
 import (
 	"fmt"
+	"strings"
 	"time"
 
 	"github.com/GoogleCloudPlatform/grpc-gcp-go/grpcgcp/multiendpoint"
@@ -248,8 +249,10 @@ func Run(c *Case, props map[string]bool) (res Result) {
 	step := -1
 	otherFailed := false
 	fail := func(prop, rule, f string, a ...interface{}) {
-		if props[prop] {
-			panic(failPanic{&Fail{Prop: prop, Rule: rule, Step: step, Msg: fmt.Sprintf(f, a...)}})
+		for _, p := range strings.Split(prop, "|") { // a rule may belong to several properties
+			if props[p] {
+				panic(failPanic{&Fail{Prop: p, Rule: rule, Step: step, Msg: fmt.Sprintf(f, a...)}})
+			}
 		}
 		// another property's rule failed on this observation: the remaining rules of the same
 		// observation are still evaluated (they are independent), then the case ends silently
@@ -359,7 +362,7 @@ func Run(c *Case, props map[string]bool) (res Result) {
 		if nfl == 0 {
 			// all statuses are known
 			if ta != "" && stat(got) == stU && got != ta {
-				fail("C13", "B.unavailCurrent", "%s: current %q is unavailable but %q is available (list %v)", what, got, ta, m.list)
+				fail("C13|C14", "B.unavailCurrent", "%s: current %q is unavailable but %q is available (list %v)", what, got, ta, m.list)
 			}
 			if ta == "" {
 				want := prev
